@@ -1,6 +1,7 @@
 import Tmv.Drv.Core
 import Tmv.Model.MConn
 import Tmv.Model.PeerMsgs
+import Tmv.Model.PeerState
 namespace Tmv.Drv.C17
 open Tmv Tmv.MConn
 
@@ -17,6 +18,8 @@ structure St where
   rcv : Option Receiver := none
   pair : Option Pair := none
   reactor : Bool := false
+  consensus : Bool := false
+  prs : PeerState.PRS := {}
 
 /-- one `sendPacketMsg` whose packet is handed to the receive loop; `false` = nothing pending -/
 def pairStep (p : Pair) : Pair × Bool :=
@@ -139,6 +142,79 @@ def modelledVerdict (kind : String) (toks : List String) : Option String := do
     pure (verdict m.valid)
   | _ => none
 
+
+def showBA : Option PeerMsgs.BitArr → String
+  | none => "nil"
+  | some b => s!"{b.bits}:{b.elems}"
+
+def showPRS (p : PeerState.PRS) : String :=
+  s!"prs={p.height}/{p.round}/{p.step} prop={if p.proposal then 1 else 0} tot={p.pbpTotal} pbp={showBA p.pbp} " ++
+  s!"polr={p.polRound} pol={showBA p.pol} pv={showBA p.prevotes} pc={showBA p.precommits} " ++
+  s!"lcr={p.lastCommitRound} lc={showBA p.lastCommit} ccr={p.catchupRound} cc={showBA p.catchup}"
+
+/-- the harness node: height 1, four validators, no last commit -/
+def nodeHeight : Int := 1
+def nodeValSize : Int := 4
+def nodeLastCommitSize : Int := 0
+
+/-- the peer-state transition of an ACCEPTED consensus message (`none` = the handler panics,
+`some none` = ill-formed op line) -/
+def applyMsg (p : PeerState.PRS) (kind : String) (toks : List String) : Option (Option PeerState.PRS) := do
+  let int (k : String) : Option Int := (kv toks k).bind String.toInt?
+  match kind with
+  | "newroundstep" =>
+    let m : PeerMsgs.NewRoundStep :=
+      { height := ← int "h", round := ← int "r", step := ← (← kv toks "s").toNat?, lastCommitRound := ← int "lcr" }
+    pure (some (PeerState.applyNewRoundStep p m))
+  | "newvalidblock" =>
+    let m : PeerMsgs.NewValidBlock :=
+      { height := ← int "h", round := ← int "r", total := ← (← kv toks "total").toNat?,
+        hashLen := ← (← kv toks "hashlen").toNat?, parts := ← parseBits toks }
+    let c := ((kv toks "commit").bind parseBool).getD false
+    pure (some (PeerState.applyNewValidBlock p m c))
+  | "proposalpol" =>
+    let m : PeerMsgs.ProposalPOL := { height := ← int "h", polRound := ← int "polr", pol := ← parseBits toks }
+    pure (some (PeerState.applyProposalPOL p m))
+  | "hasvote" =>
+    let m : PeerMsgs.HasVote := { height := ← int "h", round := ← int "r", type := ← int "t", index := ← int "idx" }
+    pure (PeerState.applyHasVote p m)
+  | "votesetbits" =>
+    let m : PeerMsgs.VoteSetBits :=
+      { height := ← int "h", round := ← int "r", typeOk := ← parseBool (← kv toks "tok"),
+        blockIdOk := ← parseBool (← kv toks "bidok"), votes := ← parseBits toks }
+    -- whatever the node found for the block id (nil, or an array of its validator count)
+    let t := (int "t").getD 1
+    match PeerState.applyVoteSetBits p m t none, PeerState.applyVoteSetBits p m t (PeerMsgs.newBitArray nodeValSize) with
+    | some a, some _ => pure (some a)
+    | _, _ => pure none
+  | "opaque-proposal" =>
+    pure (some (PeerState.setHasProposal p (← int "h") (← int "r") (← int "polr") (← (← kv toks "total").toNat?)))
+  | "opaque-blockpart" =>
+    pure (PeerState.setHasProposalBlockPart p (← int "h") (← int "r") (← int "idx"))
+  | "opaque-vote" =>
+    pure (PeerState.receiveVote p nodeHeight nodeValSize nodeLastCommitSize (← int "vh") (← int "vr") (← int "vt") (← int "vidx"))
+  | _ => pure (some p)       -- vote-set-maj23, garbage: the peer state is not touched
+
+/-- the harness's emulation of the gossip routines' calls -/
+def gossipModel (p : PeerState.PRS) (what : String) : Option PeerState.PRS :=
+  match what with
+  | "part" =>
+    let total : Int := p.pbpTotal
+    if total ≤ 0 ∨ total > 2000 then some p
+    else
+      -- any index of the node's (full) part set may be picked
+      if (List.range total.toNat).all fun i => (PeerState.gossipPart p total (some (i : Int))).isSome
+      then some p else none
+  | "vote" =>
+    let rounds := [p.round, p.polRound].filter (0 ≤ ·)
+    rounds.foldl (fun acc r =>
+      [1, 2].foldl (fun (acc : Option PeerState.PRS) (t : Int) =>
+        acc.bind fun q =>
+          let v : PeerState.OurVotes := { height := p.height, round := r, type := t, size := nodeValSize, isCommit := t == 2 }
+          if (List.range 4).all fun i => (PeerState.pickSendVote q v (some (i : Int))).isSome
+          then PeerState.pickSendVote q v (some 0) else none) acc) (some p)
+  | _ => some p
+
 def step (st : St) (toks : List String) : St × String :=
   match toks with
   | "sconn" :: rest =>
@@ -210,17 +286,25 @@ def step (st : St) (toks : List String) : St × String :=
     match kv rest "kind" with
     | some k =>
       if ["consensus", "mempool", "evidence", "blockchain", "statesync", "pex"].contains k
-      then ({ st with reactor := true }, "ok") else (st, "bad-op")
+      then ({ st with reactor := true, consensus := k == "consensus", prs := {} }, "ok") else (st, "bad-op")
     | none => (st, "bad-op")
   | "rmsg" :: rest =>
     if ¬ st.reactor then (st, "bad-op") else
     match kv rest "kind", kv rest "expect" with
     | some k, some e =>
-      if ["newroundstep", "newvalidblock", "proposalpol", "hasvote", "votesetbits"].contains k then
-        match modelledVerdict k rest with
-        | some v => (st, v)
-        | none => (st, "bad-op")
-      else (st, e)
+      if ¬ st.consensus then (st, e) else
+      let v? : Option String :=
+        if ["newroundstep", "newvalidblock", "proposalpol", "hasvote", "votesetbits"].contains k
+        then modelledVerdict k rest else some e
+      match v? with
+      | none => (st, "bad-op")
+      | some v =>
+        if v ≠ "ok" then (st, v ++ " " ++ showPRS st.prs)
+        else
+          match applyMsg st.prs k rest with
+          | none => (st, "bad-op")
+          | some none => (st, "recovered-panic " ++ showPRS st.prs)
+          | some (some p') => ({ st with prs := p' }, "ok " ++ showPRS p')
     | _, _ => (st, "bad-op")
   | "flood" :: rest =>
     if ¬ st.reactor then (st, "bad-op") else
@@ -229,8 +313,11 @@ def step (st : St) (toks : List String) : St × String :=
     | _, _, _ => (st, "bad-op")
   | "gossip" :: rest =>
     if ¬ st.reactor then (st, "bad-op") else
-    match kv rest "expect" with
-    | some e => (st, e)
+    match kv rest "what" with
+    | some w =>
+      match gossipModel st.prs w with
+      | some p' => ({ st with prs := p' }, "ok " ++ showPRS p')
+      | none => (st, "PANIC-outside-recover " ++ showPRS st.prs)
     | none => (st, "bad-op")
   | ["health"] => if st.reactor then (st, "healthy") else (st, "bad-op")
   | _ => (st, "bad-op")
